@@ -88,7 +88,14 @@ func methodCode(m string) int {
 
 // genUnsatCore returns clauses over fresh-ish variables that are unsatisfiable together.
 func genUnsatCore(r *rand.Rand, n int) [][]int {
-	switch r.Intn(4) {
+	switch r.Intn(5) {
+	case 4: // a unit clause g guarding a core that needs search: g, (-g a b), (-g a -b), (-g -a b), (-g -a -b)
+		if n < 3 {
+			return [][]int{{1}, {-1}}
+		}
+		perm := r.Perm(n)
+		g, a, b := randSign(r, perm[0]+1), perm[1]+1, perm[2]+1
+		return [][]int{{g}, {-g, a, b}, {-g, a, -b}, {-g, -a, b}, {-g, -a, -b}}
 	case 0: // x, -x
 		v := 1 + r.Intn(n)
 		return [][]int{{v}, {-v}}
@@ -150,6 +157,14 @@ func genCnfForMus(r *rand.Rand, tier string) *CnfCase {
 	}
 	if r.Intn(5) == 0 && len(cls) > 0 { // a clause written with a repeated literal (x x, x y x)
 		k := r.Intn(len(cls))
+		if r.Intn(2) == 0 { // prefer a unit clause
+			for j, cl := range cls {
+				if len(cl) == 1 {
+					k = j
+					break
+				}
+			}
+		}
 		if len(cls[k]) > 0 {
 			c := append([]int{}, cls[k]...)
 			c = append(c, c[r.Intn(len(c))])
@@ -383,4 +398,11 @@ func runC08s(e *emitter, idx int, c *CnfCase) {
 		e.out.Sync()
 		panic("timeout: restart")
 	}
+}
+
+func randSign(r *rand.Rand, v int) int {
+	if r.Intn(2) == 0 {
+		return -v
+	}
+	return v
 }
